@@ -136,6 +136,24 @@ fn snap(w: &WalletH, slots: &[Uuid]) -> Snap {
 	}
 }
 
+/// what coin selection can reach: the fee (it grows with the number of inputs) of an estimate that takes
+/// every eligible output, for 0, 1 and 10 required confirmations
+fn selection_probe(w: &WalletH) -> Value {
+	let mut v = vec![];
+	for mc in [0u64, 1, 10].iter() {
+		let mut args = default_args(G);
+		args.minimum_confirmations = *mc;
+		args.selection_strategy_is_use_all = true;
+		args.estimate_only = Some(true);
+		v.push(match catch(|| w.init_send(args)) {
+			Ok(Ok(s)) => json!({"min_conf": mc, "fee": s.fee_fields.fee()}),
+			Ok(Err(e)) => json!({"min_conf": mc, "err": format!("{}", e).chars().take(40).collect::<String>()}),
+			Err(p) => json!({"min_conf": mc, "panic": p}),
+		});
+	}
+	json!(v)
+}
+
 fn exact_amount(n_inputs: usize) -> u64 {
 	// spends n whole 60-grin coinbase outputs with no change
 	60 * G * n_inputs as u64 - tx_fee(n_inputs, 1, 1)
@@ -311,6 +329,7 @@ fn run_scenario_inner(w: &World, sc: &Scenario) -> Result<String, (String, Strin
 	}
 	let kname = format!("{:?}", sc.kind);
 	// S0
+	let probe0 = selection_probe(w.w("A"));
 	let s0a = snap(w.w("A"), &slots);
 	let s0b = snap(w.w("B"), &slots);
 	let (tname, slate_id, ttype) = match create_target(w, sc) {
@@ -490,6 +509,17 @@ fn run_scenario_inner(w: &World, sc: &Scenario) -> Result<String, (String, Strin
 					format!("C05/rollback/balances/{}", kname),
 					format!("summary after cancel {} / {} / {} differs from before creation {} / {} / {}", s2.info1, s2.info10, s2.info0, s0.info1, s0.info10, s0.info0),
 				));
+			}
+			// and the released inputs can be selected again, at every confirmation requirement
+			if tname == "A" && sc.kind != Kind::SelfSendReceivedSide {
+				t.set_account("default").unwrap();
+				let probe2 = selection_probe(t);
+				if probe2 != probe0 {
+					return Err((
+						format!("C05/rollback/selection/{}", kname),
+						format!("an estimate that takes every eligible output gives {} after the cancel, {} before the transaction was created", probe2, probe0),
+					));
+				}
 			}
 			Ok(format!("cancelled:{:?}", sc.kind))
 		}
